@@ -976,7 +976,8 @@ def _scheme(repo, col):
                             "other": b_.name if b_.op in ("free", "name", "global") else b_.short(40)}
     col.check(sels == {"jax.sparse": "step_voltage_implicit_with_jax_spsolve", "other": "step_voltage_implicit_with_jaxley_spsolve"},
               R, fi, "implicit stepper per voltage_solver", str(sels), f"steppers are {sels}", node=fn)
-    # the three schemes
+    # the three schemes: which assignment of u["v"] runs for which solver name -- decided on the guards of the stores (polarity of
+    # every `solver == "..."` / `solver != "..."` / `solver in (...)` test on the way), however the if/elif chain is arranged
     chain = None
     for n in walk_no_nested(fn):
         if isinstance(n, ast.If) and isinstance(n.test, ast.Compare) and unparse(n.test.left) == "solver":
@@ -984,17 +985,35 @@ def _scheme(repo, col):
             break
     if chain is None:
         raise AnalysisError("Module.step: solver if-chain not found")
+
+    def truth(g, name):
+        """truth value of a guard for solver == name; None if the guard is not about the solver"""
+        neg = False
+        while g.op == "not" or (g.op == "unary" and g.name == "Not"):
+            neg, g = not neg, g.args[0]
+        v = None
+        if g.op == "cmp" and len(g.args) == 2 and any(a_.op == "param" and a_.name == "solver" for a_ in g.args):
+            other = next(a_ for a_ in g.args if not (a_.op == "param" and a_.name == "solver"))
+            if g.name in ("==", "!=") and other.op == "const":
+                v = (other.name == name) == (g.name == "==")
+            elif g.name in ("in", "not in") and other.op in ("list", "tuple", "set") and all(x.op == "const" for x in other.args):
+                v = (name in {x.name for x in other.args}) == (g.name == "in")
+        return None if v is None else (v != neg)
+
+    stores_v = [s_ for s_ in ex.stores if s_.kind == "sub" and s_.key.op == "const" and s_.key.name == "v" and
+                any(truth(g, "bwd_euler") is not None for g in s_.guards)]
     branches = {}
-    node = chain
-    while True:
-        name = node.test.comparators[0].value if isinstance(node.test.comparators[0], ast.Constant) else None
-        branches[name] = node.body
-        if len(node.orelse) == 1 and isinstance(node.orelse[0], ast.If) and isinstance(node.orelse[0].test, ast.Compare):
-            node = node.orelse[0]
-            continue
-        break
+    for name in ("bwd_euler", "crank_nicolson", "fwd_euler"):
+        act = [s_ for s_ in stores_v if all(truth(g, name) is not False for g in s_.guards)]
+        if len(act) == 1:
+            branches[name] = [act[0].stmt]
+        else:
+            col.bad(R, fi, f"solver '{name}' runs exactly one voltage update", f"{len(act)} assignments of u['v'] are active for solver == '{name}'", node=chain)
     col.check(set(branches) == {"bwd_euler", "crank_nicolson", "fwd_euler"}, R, fi, "the three schemes are dispatched by name",
               str(sorted(map(str, branches))), f"dispatch covers {sorted(map(str, branches))}", node=chain)
+    node = chain
+    while len(node.orelse) == 1 and isinstance(node.orelse[0], ast.If) and isinstance(node.orelse[0].test, ast.Compare):
+        node = node.orelse[0]
 
     def assign_v(body):
         for st in body:
